@@ -301,6 +301,13 @@ type jsonExpression struct {
 	BoostPower    *float64       `json:"power,omitempty"`
 }
 
+// jsonRangeBoundary is the wire form of a RangeBoundary with the bounds left undecoded.
+type jsonRangeBoundary struct {
+	Min       json.RawMessage `json:"min"`
+	Max       json.RawMessage `json:"max"`
+	Inclusive bool            `json:"inclusive"`
+}
+
 // MarshalJSON is a custom JSON serialization for the Expression
 func (e Expression) MarshalJSON() (out []byte, err error) {
 	// if we are in a leaf node just marshal the value
@@ -392,19 +399,22 @@ func (e *Expression) UnmarshalJSON(data []byte) (err error) {
 	}
 
 	if len(c.Right) > 0 && looksLikeRangeBoundary(c.Right) {
-		var boundary RangeBoundary
-		err = json.Unmarshal(c.Right, &boundary)
+		// keep the bounds raw and decode them like every other literal: going through
+		// interface{} turns every number into a float64, which cannot hold all integers
+		var raw jsonRangeBoundary
+		err = json.Unmarshal(c.Right, &raw)
 		if err != nil {
 			return err
 		}
-		if !IsExpr(boundary.Min) {
-			boundary.Min = literalToExpr(toIntIfNecessary(boundary.Min))
+		min, err := unmarshalLiteral(raw.Min)
+		if err != nil {
+			return err
 		}
-
-		if !IsExpr(boundary.Max) {
-			boundary.Max = literalToExpr(toIntIfNecessary(boundary.Max))
+		max, err := unmarshalLiteral(raw.Max)
+		if err != nil {
+			return err
 		}
-		e.Right = &boundary
+		e.Right = &RangeBoundary{Min: min, Max: max, Inclusive: raw.Inclusive}
 	} else if len(c.Right) > 0 {
 		e.Right = ptr(empty())
 		err = json.Unmarshal(c.Right, e.Right)
